@@ -385,10 +385,61 @@ func (x *Exec) contractCall(st *State, key string, fc *FuncContract, c *ssa.Call
 		}
 		x.assume(st, t)
 	}
+	// ghost assignments the callee makes at its exit (`sets g := e`): assumed when e reads the assigned ghosts only
+	// through old() (otherwise the value depends on the callee's body-internal ghost state and is left havoced)
+	setNames := map[string]bool{}
+	for _, sd := range fc.Sets {
+		setNames[sd.Name] = true
+	}
+	for _, sd := range fc.Sets {
+		if mentionsOutsideOld(sd.E, setNames, false) {
+			continue
+		}
+		cur, ok := st.ghost[sd.Name]
+		if !ok {
+			continue
+		}
+		v, err := x.specEval(ectx, sd.E)
+		if err != nil || !sameShape(cur, v) {
+			continue
+		}
+		x.assume(st, valEqRaw(cur, v))
+	}
 	for _, b := range backs {
 		st.cells[b.cell] = x.loadObj(st, b.ref, b.t, "", b.t)
 	}
 	return res, nil
+}
+
+func sameShape(a, b *Val) bool {
+	if a == nil || b == nil || a.K != b.K || len(a.F) != len(b.F) {
+		return false
+	}
+	if a.K == VScalar {
+		return a.T != nil && b.T != nil && a.T.S == b.T.S
+	}
+	for i := range a.F {
+		if !sameShape(a.F[i], b.F[i]) {
+			return false
+		}
+	}
+	return true
+}
+
+func mentionsOutsideOld(e *Expr, names map[string]bool, inOld bool) bool {
+	if e == nil {
+		return false
+	}
+	if e.Kind == "ident" && names[e.Name] && !inOld {
+		return true
+	}
+	io := inOld || (e.Kind == "call" && e.Name == "old")
+	for _, a := range e.Args {
+		if mentionsOutsideOld(a, names, io) {
+			return true
+		}
+	}
+	return false
 }
 
 func calleeParamTypes(c *ssa.CallCommon, fc *FuncContract, f *ssa.Function) []types.Type {
